@@ -8,20 +8,20 @@ applied in this order:
   tabs     in a line, a segment of 1..t spaces that ENDS at a tab stop (column % t == 0, every character = one column, as
            `str.expandtabs`) is replaced by one `\t`; any number of non-overlapping segments, anywhere in the line (indentation,
            between words, inside code, inside raw HTML attributes);
-  wslines  empty lines -- NOT the first line of the text -- are replaced by lines of spaces and/or tabs (also a final line
+  wslines  empty lines -- the first line of the text included -- are replaced by lines of spaces and/or tabs (also a final line
            without line terminator);
-  pad      blank lines added before and/or after the document; the added lines may be whitespace-only except the very first line
-           of the text; only for documents WITHOUT `<` (an unterminated raw HTML block runs to the end of input by design; the
+  pad      blank lines added before and/or after the document; the added lines may be whitespace-only, the very first line of the
+           text too, also in front of a document whose own first line is whitespace-only; only for documents WITHOUT `<` (an unterminated raw HTML block runs to the end of input by design; the
            property excludes it) and never with the `meta` extension (whose syntax is anchored at the first line by design);
   eol      every line terminator independently LF / CRLF / CR, the last line with or without terminator (as in the base), with the
            one inherent exception: a CR directly followed by the LF of an EMPTY next line would spell CRLF = one line break;
            that combination is not produced (hypothesis `splitsCRLF` of the Lean lemma);
   ctl      STX / ETX inserted at arbitrary positions (also between CR and LF, at the very start, inside words).
 
-Known region F-C09-1: a whitespace-only first line is not emptied ((?<=\n) cannot match at offset 0).  Reached by `wslines` on
-the first line (never generated) and by `pad` in front of a document whose first line is whitespace-only but not empty (moves it
-to a later line, where it IS emptied).  Such pads are generated with small probability only, and tagged by the narrow predicate
-"the first line of base or variant (after removing STX/ETX) is non-empty and consists of spaces / tabs only".
+F-C09-1 (a whitespace-only first line was not emptied) is REPAIRED (regex `(?<![^\n]) +\n`): nothing avoids or tags that region any
+more -- base documents with a whitespace-only first line, `wslines` on line 1 and `pad` in front of such documents are generated on
+purpose; the FINDINGS witnesses are kept (status fixed: `replay` is False on the repaired tree, True if the defect returns).  Likewise an
+exception other than RecursionError -- also one raised for base and variant alike (formerly the `<![` assertion F-C02-1) -- is reported.
 
 Documents: structured core documents (gen/docs.py, indentation rescaled to the tab length, with / without inline HTML),
 token soups (markup, ampersand shapes, HTML tokens, extension tokens, control and non-ASCII characters), line-structured
@@ -34,11 +34,11 @@ from gen import docs2 as docs, common
 NEEDS_DRIVER = False
 
 FINDINGS = [
-    {'id': 'F-C09-1', 'property': 'C09', 'status': 'open', 'what': 'a whitespace-only FIRST line is not emptied (code block instead of nothing)',
+    {'id': 'F-C09-1', 'property': 'C09', 'status': 'fixed', 'what': 'a whitespace-only FIRST line is not emptied (code block instead of nothing)',
      'witness': {'base': '\nfoo', 'variant': '    \nfoo', 'tab_length': 4, 'extensions': []}},
-    {'id': 'F-C09-1', 'property': 'C09', 'status': 'open', 'what': 'whitespace-only first line followed by === gives an empty h1',
+    {'id': 'F-C09-1', 'property': 'C09', 'status': 'fixed', 'what': 'whitespace-only first line followed by === gives an empty h1',
      'witness': {'base': '\n===', 'variant': '  \n===', 'tab_length': 4, 'extensions': []}},
-    {'id': 'F-C09-1', 'property': 'C09', 'status': 'open', 'what': 'a blank line padded in front of a document whose first line is whitespace-only changes the output',
+    {'id': 'F-C09-1', 'property': 'C09', 'status': 'fixed', 'what': 'a blank line padded in front of a document whose first line is whitespace-only changes the output',
      'witness': {'base': '    \nfoo', 'variant': '\n    \nfoo', 'tab_length': 4, 'extensions': []}},
 ]
 
@@ -73,7 +73,7 @@ def gen_base(rng, t):
         d = common.mutated(rng, 240)
     d = base_clean(d)
     if rng.random() < 0.15: d += rng.choice(['\n', '\n\n', '  ', '\n  '])
-    if rng.random() < 0.1: d = rng.choice(['\n', ' ', '   ', '  \n']) + d
+    if rng.random() < 0.12: d = rng.choice(['\n', ' ', '   ', '  \n', '    \n', ' ' * (t + 2) + '\n', '  \n\n']) + d      # also whitespace-only FIRST lines
     return d
 
 
@@ -103,19 +103,17 @@ def v_tabs(rng, d, t):
 
 def v_wslines(rng, d, t):
     lines = d.split('\n'); n = 0
-    for i in range(1, len(lines)):
+    for i in range(0, len(lines)):             # the first line included (F-C09-1 is repaired: it must be emptied like any other)
         if lines[i] == '' and rng.random() < 0.5:
             lines[i] = rng.choice([' ', '  ', '    ', ' ' * (t + 1), '\t', ' \t', '\t\t ', ' ' * 9]); n += 1
     return '\n'.join(lines), n
 
 
-def v_pad(rng, d, t, allow_f):
-    first = d.split('\n')[0]
-    front_hits_finding = first != '' and first.strip(' ') == ''
+def v_pad(rng, d, t):
     n = 0
-    if rng.random() < 0.6 and (not front_hits_finding or (allow_f and rng.random() < 0.3)):
+    if rng.random() < 0.6:
         k = rng.randint(1, 3)
-        pad = [''] + [rng.choice(['', '', ' ', '\t', '    ']) for _ in range(k - 1)]
+        pad = [rng.choice(['', '', ' ', '\t', '    ', ' ' * (t + 1)]) for _ in range(k)]       # the very first line may be whitespace-only too
         d = '\n'.join(pad) + '\n' + d; n += k
     if rng.random() < 0.6 or n == 0:
         k = rng.randint(1, 3)
@@ -147,12 +145,6 @@ def v_ctl(rng, d):
     return d, k
 
 
-def first_line_ws(s):
-    s = s.replace(STX, '').replace(ETX, '')
-    l = re.split(r'\r\n|\r|\n', s, maxsplit=1)[0]
-    return l != '' and l.strip(' \t') == ''
-
-
 def gen_case(rng):
     t = rng.choice([2, 4, 4, 8])
     exts = common.ext_subset(rng, SAFE_EXT, 3) if rng.random() < 0.25 else []
@@ -167,7 +159,7 @@ def gen_case(rng):
         if c not in clauses: continue
         if c == 'tabs': v, n = v_tabs(rng, v, t)
         elif c == 'wslines': v, n = v_wslines(rng, v, t)
-        elif c == 'pad': v, n = v_pad(rng, v, t, True)
+        elif c == 'pad': v, n = v_pad(rng, v, t)
         elif c == 'eol': v, n = v_eol(rng, v)
         else: v, n = v_ctl(rng, v)
         if n: done.append(c)
@@ -189,14 +181,13 @@ def evaluate(case, cache=None):
             res.append(('exc', type(e).__name__))
             md = cache[k] = markdown.Markdown(tab_length=case['tab_length'], extensions=list(case['extensions']))
     if res[0][0] == 'exc' or res[1][0] == 'exc':
-        if res[0] == res[1]:                           # both raise alike (RecursionError, the `<![` assertion F-C02-1): not this property
-            return 'skip', 'both-raise-' + res[0][1]
         if 'RecursionError' in (res[0][1], res[1][1]): return 'skip', 'recursion'
+        # any other exception -- also when base and variant raise alike -- is reported (F-C02-1, the `<![` assertion, is repaired)
         return 'viol', {'input': {k2: case[k2] for k2 in ('base', 'variant', 'clauses')}, 'config': {'tab_length': case['tab_length'], 'extensions': case['extensions']},
                         'observed': 'variant: %s %s' % res[1], 'required': 'base: %s %s' % res[0], 'finding': None}
     o0, o1 = res[0][1], res[1][1]
     if o0 == o1: return 'ok', o0
-    finding = 'F-C09-1' if (first_line_ws(case['base']) or first_line_ws(case['variant'])) else None
+    finding = None                                     # F-C09-1 is repaired: a recurrence is an ordinary violation
     return 'viol', {'input': {k: case[k] for k in ('base', 'variant', 'clauses')}, 'config': {'tab_length': case['tab_length'], 'extensions': case['extensions']},
                     'observed': repr(o1), 'required': repr(o0), 'finding': finding}
 
